@@ -50,6 +50,13 @@ def kraus_catalogue(d):
     for name, U in catalog.unitaries(d).items():
         out["U:" + name] = [U]
     out["U:sph"] = [np.diag([np.exp(1j * np.pi * k / (4 * max(d - 1, 1))) for k in range(d)])]  # spectrum inside an arc of pi/4
+    if d >= 3:
+        # non-diagonal unitary with a complex, non-symmetric matrix and spectrum inside an arc: F diag(e^{1.4i}, 1, ..., e^{-1.4i}) F^dagger.
+        # Added after seeded change C20-15 (entrywise real part where the Hermitian part is meant: invisible on diagonal or real unitaries).
+        Fm = catalog.unitaries(d)["F"]
+        ph = np.ones(d, dtype=complex)
+        ph[0], ph[-1] = np.exp(1.4j), np.exp(-1.4j)
+        out["U:Fph"] = [Fm @ np.diag(ph) @ Fm.conj().T]
     U = catalog.unitaries(d)
     out["mix:I,X"] = [np.sqrt(0.5) * U["I"], np.sqrt(0.5) * U["X"]]
     out["mix:F,g0"] = [np.sqrt(0.25) * U["F"], np.sqrt(0.75) * U["g0"]]
@@ -456,7 +463,7 @@ def cf_cases(tier, seed):
         pairs = list(itertools.product(base, repeat=2))
     for a, b in pairs:
         yield {"d": 2, "a": a, "b": b}
-    d3 = [("U:I", "U:sph"), ("depol:0.25", "ad:0.3")]
+    d3 = [("U:I", "U:sph"), ("depol:0.25", "ad:0.3"), ("U:I", "U:Fph")]
     if tier == "thorough":  # near-zero fidelities make SCS slow (~30 s): thorough only
         d3 += [("U:I", "U:F"), ("U:Z", "U:g0"), ("stine:g0", "stine:g0"), ("stine:g0", "stine:g1"), ("replace:ket:g0", "replace:gfull0")]
     for a, b in d3:
